@@ -40,6 +40,9 @@ def render(r, chain):
             j = r.choice(JOINERS)
             if j == '' and prev[-1] not in '¼½24':
                 j = ' '
+            if r.random() < 0.15:
+                # any blank the patterns' `\s` accepts joins components like a space does: no-break / thin / ideographic space, tab
+                j = j.replace(' ', r.choice(['\xa0', '\u2009', '\u202f', '\u3000', '\t', '  ']))
             parts.append(j)
         parts.append(sp)
     return ''.join(parts)
